@@ -163,6 +163,137 @@ example : ∃ c, Reach { mode := .fixed } [.start, .stop, .start] c ∧ (c.ws 0)
     (c.ws 1).running = true :=
   ⟨_, reachAll_fixed rfl (reachAll_run _ _ (ctlN 32)), by decide, by decide⟩
 
+/-! ### progress of a cancelled worker -/
+
+/-- how many of its own steps a disarmed worker needs, at most, to leave `run` -/
+def wdist : WPc → Nat
+  | .created => 0 | .held => 2 | .arm => 0 | .loop => 1 | .slp => 3 | .chk => 2 | .ret => 1
+  | .try_ => 3 | .call => 2 | .done => 0
+
+/-- facts about worker `i` that make it run off: its `stop()` has returned -/
+def Off (c : Cfg) (i : Nat) : Prop := (c.ws i).stopRet = true
+
+theorem off_stepW {p : Params} {c : Cfg} (i j : Nat) (hp : p.mode = .fixed) (h : Inv p c)
+    (ho : Off c i) :
+    Off (stepW p c j) i ∧
+      wdist ((stepW p c j).ws i).pc = if j = i then wdist (c.ws i).pc - 1 else wdist (c.ws i).pc := by
+  have g2 := h.g2 i ho
+  have g8 := h.g8 hp i
+  simp only [Act, hp] at g2
+  unfold stepW Off at *
+  by_cases hj : j = i
+  · subst hj
+    cases hpc : (c.ws j).pc <;> simp_all [setW, wdist]
+  · have hj' : ¬ i = j := fun h => hj h.symm
+    cases hpc : (c.ws j).pc <;> simp_all [setW, wdist]
+
+theorem enter_ws (c : Cfg) : (enter c).ws = c.ws := by
+  unfold enter; split <;> rfl
+
+theorem retTop_ws (c : Cfg) : (retTop c).ws = c.ws := by
+  unfold retTop; rw [enter_ws]
+
+theorem retStart_ws (c : Cfg) : (retStart c).ws = c.ws := by
+  unfold retStart; split <;> exact retTop_ws c
+
+theorem retStop_ws_pc (c : Cfg) (i : Nat) :
+    ((retStop c).ws i).pc = (c.ws i).pc ∧ ((c.ws i).stopRet = true → ((retStop c).ws i).stopRet = true) := by
+  unfold retStop
+  cases hc : c.cancelled with
+  | none => simp only []; split <;> simp [retTop_ws]
+  | some k =>
+    simp only []
+    split <;> simp only [retTop_ws, setW] <;> (by_cases hik : i = k <;> simp [hik])
+
+theorem off_stepCtl {p : Params} {c : Cfg} (i : Nat) (hp : p.mode = .fixed) (h : Inv p c)
+    (ho : Off c i) :
+    Off (stepCtl p c) i ∧ ((stepCtl p c).ws i).pc = (c.ws i).pc := by
+  have g2 := h.g2 i ho
+  have g5 := h.g5 i
+  have hctl := h.ctl
+  have hlt : i < c.nw := by
+    apply Nat.lt_of_not_le
+    intro hle
+    have := g5 hle
+    simp [Off, this] at ho
+  unfold Off at *
+  unfold stepCtl
+  cases hpc : c.cpc <;> simp only [hp] <;> (try split) <;> (try split) <;>
+    simp only [retStart_ws, setW, ctlInv, hpc] at * <;>
+    first
+      | exact ⟨ho, rfl⟩
+      | exact ⟨(retStop_ws_pc _ i).2 ho, (retStop_ws_pc _ i).1⟩
+      | grind
+
+theorem off_step {p : Params} {c : Cfg} (i : Nat) (t : Tid) (hp : p.mode = .fixed) (h : Inv p c)
+    (ho : Off c i) :
+    Inv p (step p c t) ∧ Off (step p c t) i ∧
+      wdist ((step p c t).ws i).pc = if t = .w i then wdist (c.ws i).pc - 1 else wdist (c.ws i).pc := by
+  refine ⟨inv_step t h (by simp [okStep, hp]), ?_⟩
+  have hlt : i < c.nw := by
+    apply Nat.lt_of_not_le
+    intro hle
+    have := h.g5 i hle
+    simp [Off, this] at ho
+  unfold step
+  split
+  · cases t with
+    | ctl =>
+      obtain ⟨h1, h2⟩ := off_stepCtl i hp h ho
+      exact ⟨h1, by simp [h2]⟩
+    | w j =>
+      obtain ⟨h1, h2⟩ := off_stepW i j hp h ho
+      refine ⟨h1, ?_⟩
+      rw [h2]
+      by_cases hj : j = i <;> simp [hj]
+  · rename_i hen
+    refine ⟨ho, ?_⟩
+    split
+    · rename_i ht
+      subst ht
+      simp only [enabled, hlt, decide_true, Bool.true_and, Bool.and_eq_true, decide_eq_true_eq,
+        ne_eq, not_and, Decidable.not_not] at hen
+      by_cases hc : (c.ws i).pc = .created
+      · simp [hc, wdist]
+      · simp [hen hc, wdist]
+    · rfl
+
+theorem wdist_run {p : Params} (hp : p.mode = .fixed) (i : Nat) (sched : List Tid) :
+    ∀ c : Cfg, Inv p c → Off c i →
+      Inv p (run p c sched) ∧ Off (run p c sched) i ∧
+        wdist ((run p c sched).ws i).pc ≤ wdist (c.ws i).pc - sched.count (.w i) := by
+  induction sched with
+  | nil => intro c h ho; exact ⟨h, ho, by simp [run]⟩
+  | cons t ts ih =>
+    intro c h ho
+    obtain ⟨h1, h2, h3⟩ := off_step i t hp h ho
+    obtain ⟨k1, k2, k3⟩ := ih (step p c t) h1 h2
+    refine ⟨k1, k2, ?_⟩
+    simp only [run]
+    rw [h3] at k3
+    by_cases ht : t = .w i
+    · subst ht
+      simp only [if_true, List.count_cons_self] at k3 ⊢
+      omega
+    · have hc : List.count (Tid.w i) (t :: ts) = List.count (Tid.w i) ts := by
+        rw [List.count_cons]; simp [ht]
+      simp only [ht, if_false] at k3
+      rw [hc]
+      exact k3
+
+/-- "... and then never again", as progress: a worker whose `stop()` has returned leaves `run`
+    within 3 of its own steps, whatever all other threads do in between (repaired protocol). -/
+theorem C20_cancelled_worker_terminates (p : Params) (calls : List Call) (c : Cfg)
+    (hp : p.mode = .fixed) (h : ReachAll p calls c) (i : Nat) (hs : (c.ws i).stopRet = true)
+    (sched : List Tid) (hf : 3 ≤ sched.count (.w i)) : ((run p c sched).ws i).pc = .done := by
+  have hi := inv_of_reach (reachAll_fixed hp h)
+  obtain ⟨k1, k2, k3⟩ := wdist_run hp i sched c hi hs
+  have hb : wdist (c.ws i).pc ≤ 3 := by cases (c.ws i).pc <;> simp [wdist]
+  have h0 : wdist ((run p c sched).ws i).pc = 0 := by omega
+  have g2 := k1.g2 i k2
+  have g8 := k1.g8 hp i
+  cases hpc : ((run p c sched).ws i).pc <;> simp_all [wdist]
+
 /-! ### parts B and T restated under the property's namespace -/
 section B
 open CpModel.BlockWait
